@@ -55,8 +55,10 @@ func (fr *frame) exec(instr ssa.Instruction, st *State) {
 			p.HT = fmt.Sprintf("array<%s>", typeTagName(t))
 		}
 		fx.storeVal(st, p, g.zero(t))
+		fr.foldWF(st, p.HT, p.Addr)
 		fr.vals[x] = p
 		fx.noteObj(p)
+		fx.noteNodeRefs(p, x.Type())
 		if x.Comment != "" && !strings.ContainsAny(x.Comment, " .()") {
 			// a named local that lives in a cell (captured by a closure, named result, address taken)
 			if fr.cells == nil {
@@ -71,6 +73,7 @@ func (fr *frame) exec(instr ssa.Instruction, st *State) {
 		if p.Local == nil {
 			s.oblig("nil", "", fr.safetyTags(), st.reach, not(eq(p.Addr, "0")), pos, "nil dereference: "+x.String())
 		}
+		fr.unfoldWF(st, p)
 		stt := structOf(p.Elem)
 		f := stt.Field(x.Field)
 		fr.vals[x] = PtrV{Addr: p.Addr, HT: p.HT, Path: p.Path + "." + f.Name(), Elem: f.Type(), Local: p.Local}
@@ -188,6 +191,7 @@ func (fr *frame) exec(instr ssa.Instruction, st *State) {
 			}
 			fr.checkFrame(st, p, pos)
 			fx.storeVal(st, p, v)
+			fr.foldWF(st, p.HT, p.Addr)
 		case ElemPtrV:
 			fr.storeElem(st, p, v)
 		default:
